@@ -262,7 +262,7 @@ def run(chk, replay):
         cfgseed = chk.rng.randrange(1 << 30)
         v = run_scenario(chk, sc, cfgseed, ndims)
         sigs = util.sig_str(sc["sig"], ndims)
-        triv = sc["sig"][4] == 1 and sc["sig"][3] == "default" and sc["sig"][2] == "known"
+        triv = sc["sig"][5] == 1 and sc["sig"][4] == "default" and sc["sig"][2] == "known"
         chk.executed(sigs, not triv, sample={"fields": sc["fields"], "mode": sc["mode"], "ndims": ndims})
         chk.traces += 1
         if v:
